@@ -104,7 +104,11 @@ def native_checks(rng, tier):
         api.LLMRails = FakeRails
         try:
             corpus = corpus + [base + "2/x", base + "2", base + "/../configs2/x", base, base + "/a", os.path.join(root, "configs2", "x"),
-                               "/" + base.lstrip("/") + "2/x"]
+                               "/" + base.lstrip("/") + "2/x",
+                               # traversals that end in a SIBLING of the root whose path starts with the root's path (a character-wise
+                               # common-prefix test accepts them), with the separator / dot-dot not at the start of the id
+                               "a/../../configs2/x", "x/../../configs2", "./../configs2/x", "a/../../configs2", "a/b/../../../configs2/x",
+                               "a\\..\\..\\configs2", "a/./../../configs2/x", "a/..", "a/../..", "a/../../configs"]
             ids_lists = [[c] for c in corpus] + [["a", c] for c in corpus] + [[c, "a"] for c in corpus[:12]]
             if tier == "thorough":
                 alphabet = ["a", ".", "/", "\\", "..", "%", "2e", " "]
